@@ -1,4 +1,5 @@
 //@ fn canonical.rs normalize_headers
+//@ params headers
 //@ hideutf8
 //@ props C08 C11 C02 C17
 //@ ret r
